@@ -1120,7 +1120,13 @@ class BaseRequest:
         cache_header, cache_obj = env.get("webob._cache_control", (None, None))
 
         if cache_obj is not None and cache_header == value:
-            return cache_obj
+            # a copied environ carries the original's object, which writes
+            # back to the original environ: do not reuse it
+            bound_to = getattr(cache_obj.properties, "updated", None)
+            bound_to = getattr(bound_to, "__self__", None)
+
+            if getattr(bound_to, "environ", None) is env:
+                return cache_obj
         cache_obj = CacheControl.parse(
             value, updates_to=self._update_cache_control, type="request"
         )
